@@ -150,6 +150,157 @@ var lk1Exempt = map[string]string{
 	"asm.(*generator).translateTypeDefs newIndex.typeDefs": "phase order: createTypeDefs stores new.typeDefs[k] for every key of old.typeDefs on all non-error paths (checked by this rule's companion obligation) and runs first in resolveTypeDefs; the loop ranges over the same key set",
 }
 
+// keyLists: slice fields of the generator's indices that list exactly keys of one of its map
+// fields — every append site `L = append(L, k)` in package asm lies in a clause (or
+// function body) that also stores `M[k] = …` under the same key expression. Ranging over
+// such a list yields keys that are present in the map.
+func (c *Ctx) keyLists() map[string]string {
+	if v, ok := c.memo["keyLists"]; ok {
+		return v.(map[string]string)
+	}
+	out := map[string]string{}
+	bad := map[string]bool{}
+	c.eachFunc(pkgASM, func(p *packages.Package, fd *ast.FuncDecl, fn *types.Func) {
+		info := p.TypesInfo
+		pm := buildParents(fd.Body)
+		ast.Inspect(fd.Body, func(n ast.Node) bool {
+			as, ok := n.(*ast.AssignStmt)
+			if !ok || len(as.Lhs) != 1 || len(as.Rhs) != 1 {
+				return true
+			}
+			call, ok := unparen(as.Rhs[0]).(*ast.CallExpr)
+			if !ok || exprString(call.Fun) != "append" || len(call.Args) != 2 || exprString(call.Args[0]) != exprString(as.Lhs[0]) {
+				return true
+			}
+			if _, isSel := unparen(as.Lhs[0]).(*ast.SelectorExpr); !isSel {
+				return true
+			}
+			lname := mapFieldName(info, as.Lhs[0])
+			if !strings.HasPrefix(lname, "oldIndex.") && !strings.HasPrefix(lname, "newIndex.") {
+				return true
+			}
+			k := exprString(call.Args[1])
+			// enclosing clause or function body
+			var scope ast.Node = fd.Body
+			for q := pm[as]; q != nil; q = pm[q] {
+				if cc, ok := q.(*ast.CaseClause); ok {
+					scope = cc
+					break
+				}
+			}
+			found := ""
+			ast.Inspect(scope, func(m ast.Node) bool {
+				if a2, ok := m.(*ast.AssignStmt); ok {
+					for _, l := range a2.Lhs {
+						if ix, ok := unparen(l).(*ast.IndexExpr); ok && exprString(ix.Index) == k {
+							if _, isMap := info.TypeOf(ix.X).Underlying().(*types.Map); isMap {
+								found = mapFieldName(info, ix.X)
+							}
+						}
+					}
+				}
+				return true
+			})
+			if found == "" || (out[lname] != "" && out[lname] != found) {
+				bad[lname] = true
+			} else {
+				out[lname] = found
+			}
+			return true
+		})
+	})
+	for l := range bad {
+		delete(out, l)
+	}
+	c.memo["keyLists"] = out
+	return out
+}
+
+// keysOfMapFunc: fd collects the keys of one map field of the generator's indices into a local
+// slice (`for k := range M { xs = append(xs, k) }`) and returns that slice (sorted or not):
+// what it returns are keys of M. Returns the map's name and the slice variable.
+func (c *Ctx) keysOfMapFunc(fd *ast.FuncDecl) (string, types.Object) {
+	if fd == nil || fd.Body == nil {
+		return "", nil
+	}
+	p := c.declPkg[fd]
+	if p == nil {
+		return "", nil
+	}
+	info := p.TypesInfo
+	mname, xs := "", types.Object(nil)
+	ast.Inspect(fd.Body, func(n ast.Node) bool {
+		rs, ok := n.(*ast.RangeStmt)
+		if !ok || rs.Key == nil || len(rs.Body.List) != 1 {
+			return true
+		}
+		if _, isMap := info.TypeOf(rs.X).Underlying().(*types.Map); !isMap {
+			return true
+		}
+		as, ok := rs.Body.List[0].(*ast.AssignStmt)
+		if !ok || len(as.Lhs) != 1 || len(as.Rhs) != 1 {
+			return true
+		}
+		call, ok := unparen(as.Rhs[0]).(*ast.CallExpr)
+		if !ok || exprString(call.Fun) != "append" || len(call.Args) != 2 || exprString(call.Args[0]) != exprString(as.Lhs[0]) || exprString(call.Args[1]) != exprString(rs.Key) {
+			return true
+		}
+		if id, ok := as.Lhs[0].(*ast.Ident); ok {
+			mname, xs = mapFieldName(info, rs.X), info.ObjectOf(id)
+		}
+		return true
+	})
+	if xs == nil {
+		return "", nil
+	}
+	// every return yields the slice
+	okRet := true
+	ast.Inspect(fd.Body, func(n ast.Node) bool {
+		switch x := n.(type) {
+		case *ast.FuncLit:
+			return false
+		case *ast.ReturnStmt:
+			if len(x.Results) != 1 {
+				okRet = false
+			} else if id, ok := unparen(x.Results[0]).(*ast.Ident); !ok || info.ObjectOf(id) != xs {
+				okRet = false
+			}
+		}
+		return true
+	})
+	if !okRet {
+		return "", nil
+	}
+	return mname, xs
+}
+
+// rangedKeyList: e is the value variable of a `range` over a key list of the map named mname.
+func (c *Ctx) rangedKeyList(info *types.Info, pm parentMap, e ast.Expr, at ast.Node, mname string) (string, bool) {
+	id, ok := unparen(e).(*ast.Ident)
+	if !ok {
+		return "", false
+	}
+	for q := pm[at]; q != nil; q = pm[q] {
+		rs, ok := q.(*ast.RangeStmt)
+		if !ok || rs.Value == nil {
+			continue
+		}
+		if v, ok := rs.Value.(*ast.Ident); ok && info.ObjectOf(v) == info.ObjectOf(id) {
+			l := mapFieldName(info, rs.X)
+			if c.keyLists()[l] == mname {
+				return l, true
+			}
+			// the keys handed out by a helper that collects them from the map itself
+			if call, ok := unparen(rs.X).(*ast.CallExpr); ok {
+				if m, _ := c.keysOfMapFunc(c.funcDecl(calleeOf(info, call))); m == mname && m != "" {
+					return exprString(call.Fun) + "()", true
+				}
+			}
+		}
+	}
+	return "", false
+}
+
 func ruleLK1(c *Ctx) []Obligation {
 	var obs []Obligation
 	c.eachFunc(pkgASM, func(p *packages.Package, fd *ast.FuncDecl, fn *types.Func) {
@@ -194,6 +345,18 @@ func ruleLK1(c *Ctx) []Obligation {
 			o := Obligation{Key: key, Pos: c.pos(ix.Pos()), Verdict: VIOL, Tags: asmTags(fn.Name(), mname)}
 			if why, ok := lk1Exempt[funcKey(fn)+" "+mname]; ok {
 				o.Verdict, o.Detail = EXEMPT, why
+			} else if m, xs := c.keysOfMapFunc(fd); m == mname && xs != nil && func() bool {
+				// inside the collecting helper: M[xs[i]] with xs the slice of collected keys
+				if in, ok := unparen(ix.Index).(*ast.IndexExpr); ok {
+					if id, ok := unparen(in.X).(*ast.Ident); ok && info.ObjectOf(id) == xs {
+						return true
+					}
+				}
+				return false
+			}() {
+				o.Verdict, o.Detail = OK, "the key is an element of the slice into which this function collected the keys of "+mname
+			} else if l, ok := c.rangedKeyList(info, pm, ix.Index, ix, mname); ok {
+				o.Verdict, o.Detail = OK, fmt.Sprintf("the key is drawn from %s, which lists keys of %s only (every append to it sits next to a store into the map under the same key)", l, mname)
 			} else {
 				o.Detail = fmt.Sprintf("%s is read without `, ok`: for a name that is not in the index the result is nil, which is then used (nil dereference or a silently missing definition) instead of an `undefined` error", exprString(ix))
 			}
@@ -225,10 +388,27 @@ func (c *Ctx) lk1PhaseOrder() []Obligation {
 		info := p.TypesInfo
 		ast.Inspect(fd.Body, func(n ast.Node) bool {
 			rs, ok := n.(*ast.RangeStmt)
-			if !ok || mapFieldName(info, rs.X) != "oldIndex.typeDefs" || rs.Key == nil {
+			if !ok {
 				return true
 			}
-			k := exprString(rs.Key)
+			k := ""
+			switch {
+			case mapFieldName(info, rs.X) == "oldIndex.typeDefs" && rs.Key != nil:
+				k = exprString(rs.Key)
+			case c.keyLists()[mapFieldName(info, rs.X)] == "oldIndex.typeDefs" && rs.Value != nil:
+				k = exprString(rs.Value) // a loop over the list of the map's keys
+			case rs.Value != nil && func() bool {
+				call, ok := unparen(rs.X).(*ast.CallExpr)
+				if !ok {
+					return false
+				}
+				m, _ := c.keysOfMapFunc(c.funcDecl(calleeOf(info, call)))
+				return m == "oldIndex.typeDefs"
+			}():
+				k = exprString(rs.Value) // a loop over the keys a helper collected from the map
+			default:
+				return true
+			}
 			// last statement of the body must be the store; earlier exits must be error returns
 			body := rs.Body.List
 			if len(body) == 0 {
@@ -244,6 +424,19 @@ func (c *Ctx) lk1PhaseOrder() []Obligation {
 			}
 			l := loop{rs: rs, fn: fn}
 			rest := body[:len(body)-1]
+			// `old := gen.old.typeDefs[key]` at the head of a loop over the key list binds what
+			// the range over the map itself binds
+			for len(rest) > 0 {
+				as0, ok := rest[0].(*ast.AssignStmt)
+				if !ok || len(as0.Rhs) != 1 {
+					break
+				}
+				ix0, ok := unparen(as0.Rhs[0]).(*ast.IndexExpr)
+				if !ok || mapFieldName(info, ix0.X) != "oldIndex.typeDefs" || exprString(ix0.Index) != k {
+					break
+				}
+				rest = rest[1:]
+			}
 			// one leading filter `if [init;] COND { continue }`
 			if len(rest) > 0 {
 				if is, ok := rest[0].(*ast.IfStmt); ok && is.Else == nil && len(is.Body.List) == 1 {
